@@ -176,7 +176,7 @@ def lean_build(targets, log):
     lk = _lock()
     try:
         t0 = time.time()
-        rc, out = sh(["lake", "build"] + list(targets) + ["makodrv"], cwd=LEAN, timeout=3000)
+        rc, out = sh(["lake", "build"] + (list(targets) or ["makodrv"]), cwd=LEAN, timeout=3000)
         log("lake build %s: rc=%d in %.1fs" % (" ".join(targets), rc, time.time() - t0))
         return rc == 0, out
     finally:
